@@ -108,6 +108,7 @@ class RunBundler:
         # streams whose events are never re-taken after a rewind (monitors, interruptions)
         self._no_rewind_streams: set[Any] = set()
         self._monitor_params: dict[Subscribable, tuple[Callback, dict]] = dict()  # noqa: C408  # cache of {obj: (cb, kwargs)}
+        self._monitors_suspended = False  # True between suspend_monitors() and restore_monitors()
         # a cache of stream_resource uid to the data_keys that stream_resource collects for
         self._stream_resource_data_keys: dict[str, Iterable[str]] = dict()  # noqa: C408
         self.run_is_open = False
@@ -633,8 +634,14 @@ class RunBundler:
     async def suspend_monitors(self):
         for obj, (cb, kwargs) in self._monitor_params.items():  # noqa: B007
             obj.clear_sub(cb)
+        self._monitors_suspended = True
 
     async def restore_monitors(self):
+        # only re-subscribe what suspend_monitors() removed: a pause and a suspension may
+        # overlap, and subscribing a callback twice reports every update twice
+        if not self._monitors_suspended:
+            return
+        self._monitors_suspended = False
         for obj, (cb, kwargs) in self._monitor_params.items():
             obj.subscribe(cb, **kwargs)
 
